@@ -34,6 +34,7 @@ import mpmath
 
 L = 12  # all radicals are stored as powers of the 12th root (covers 1/2, 1/3, 1/4, 1/6, 1/12)
 ABSTRACT_ABOVE = 10  # let-abstraction threshold (terms)
+FAST = True  # packed-integer back end of the zero test (fastzero.py); False: reference implementation below
 
 
 class OutsideSubset(Exception):
@@ -648,7 +649,7 @@ class Poly:
 
     def _sign_from_facts(self):
         C = ctx()
-        if not C.pos_facts:
+        if not C.pos_facts or len(self.t) > 6:
             return None
         c, m, prim = split_content(canon(self))
         if prim.key() in C.pos_facts:
@@ -1373,7 +1374,14 @@ def is_zero(p, budget=None):
     if budget is not None:
         C.deadline = time.time() + budget
     try:
-        return _is_zero(lift(p))
+        p = lift(p)
+        if isinstance(p, Special):
+            return False
+        if FAST:
+            from . import fastzero
+
+            return fastzero.is_zero_fast(p)
+        return _is_zero(p)
     except Budget:
         if budget is not None and old is None:
             return None
